@@ -3633,6 +3633,11 @@ impl CanonicalizeContext {
 			if !is_int(&first_child) {
 				return Ok( false );
 			}
+			// canonicalize_mrows() is only a test here: on a leaf it normalizes the text in place, but on anything else it
+			// rebuilds the element and leaves the one in the tree without its children, so only leaves may be looked at
+			if !is_leaf(as_element(fraction_children[1])) || !is_leaf(as_element(fraction_children[2])) {
+				return Ok( false );
+			}
 			let slash_part = canonicalize.canonicalize_mrows(as_element(fraction_children[1]))?;
 			if name(&slash_part) == "mo" && as_text(slash_part) == "/" {
 				let denom = canonicalize.canonicalize_mrows(as_element(fraction_children[2]))?;
